@@ -559,7 +559,7 @@ theorem setData_spec (L : LasCurves) (h : L.WF) (rows : List (List Cell)) (names
       (cvRowsWidth (setDataRows L.sec.items.length rows truncate) - L.sec.items.length)
     rw [← h1]
     exact assignCols_spec _ h2 _ _ _
-  · exact ⟨abs_assignAll _ _, by unfold LasCurves.WF at *; simp only []; rw [assignAll_length]; exact h⟩
+  · exact ⟨rfl, h⟩
 
 theorem appendItem_spec (L : LasCurves) (h : L.WF) (c : CurveArg) (hc : c.isCurve = true) :
     (L.insertItem (Int.ofNat L.sec.items.length) c).1.abs = L.abs ++ [specOf c.item c.data] ∧
